@@ -34,7 +34,29 @@ def conclude(rc, mismatches, inconcl, refinement=False):
     return rc
 
 
+def replay_stored(ctx):
+    """--replay <file>: the stored case (world + steps) is re-derived by TLC (Guide) and replayed alone."""
+    if not ctx.replay:
+        return None
+    try:
+        rp = json.load(open(ctx.replay)).get("replay") or {}
+    except (OSError, ValueError):
+        return None
+    if "world" not in rp or not rp.get("steps"):
+        return None
+    if any(s.get("op", "").startswith("C") for s in rp["steps"]):
+        return None     # concurrent-caller behaviours are not re-derived by the sequential driver
+    return [{"world": rp["world"], "stored": rp["steps"]}]
+
+
 def collect(ctx, props, plans, design_cfgs=(), refinement=False, report_deaths=False):
+    stored = replay_stored(ctx)
+    if stored is not None:
+        plans, design_cfgs = stored, ()
+    return _collect(ctx, props, plans, design_cfgs, refinement, report_deaths)
+
+
+def _collect(ctx, props, plans, design_cfgs=(), refinement=False, report_deaths=False):
     """plans: list of dicts {world, sim (num traces), steps, avoid (bool), crash (bool), seeds (int)}
     design_cfgs: list of (cfg, defines, invariants-description) exhaustively checked on the first plan's world.
     Returns exit code via ctx.finish."""
@@ -60,6 +82,10 @@ def collect(ctx, props, plans, design_cfgs=(), refinement=False, report_deaths=F
                 ctx.log("TLC %s on world %s: %s distinct states%s" % (cfg, plan["world"], res.get("distinct"),
                         (", design counterexample for " + cex) if cex else ""))
         behs = []
+        if plan.get("stored"):
+            behs = run_.guided(plan["stored"])
+            if not behs:
+                raise vlib.Inconclusive("the stored behaviour is not a behaviour of the current spec")
         if plan.get("conc"):
             # concurrent callers: two Handle*Proofs calls parked between their two phases in every interleaving with each
             # other and with proposed headers / state machine entrances, a caller giving up while the kernel works on its request
@@ -81,7 +107,7 @@ def collect(ctx, props, plans, design_cfgs=(), refinement=False, report_deaths=F
                            "generated": res.get("states", 0), "design_counterexample": None, "exported": exported, "maximal_behaviours": len(behs)})
             ctx.log("world %s: %s cover <= %d steps: %s distinct, %d maximal behaviours" % (plan["world"], "edge" if plan.get("edge") else "state",
                     plan["steps"], res.get("distinct"), len(behs)))
-        for s in range(0 if (plan.get("cover") or plan.get("conc")) else plan.get("seeds", 1)):
+        for s in range(0 if (plan.get("cover") or plan.get("conc") or plan.get("stored")) else plan.get("seeds", 1)):
             res = run_.tlc("Mirror_sim.cfg", simulate="num=%d" % plan["sim"], depth=plan["steps"] + 2,
                            extra=["-seed", str(ctx.seed * 1000 + s)], workers=1, timeout=plan.get("tlc_timeout", 900),
                            defines={"MaxSteps": plan["steps"], "AvoidPanics": "TRUE" if plan.get("avoid", True) else "FALSE",
